@@ -160,8 +160,11 @@ Definition all_equal (l : list Q) : bool :=
 Definition maxabs (l : list Q) : Q := fold_right (fun x m => qmax2 (Qabs x) m) 0 l.
 Definition two40 : Q := inject_Z (2 ^ 40).
 
-(* location estimators.  Exact equality for the median and for constant lists (every float
-   operation is exact on the lattice of the generator); otherwise
+(* location estimators.  Exact equality for the median, and for constant lists in the classes whose
+   code path then returns an input value or the mean (Mean, SExtractor through `_std == 0`,
+   BiweightLocation through `mad == 0`; the generator only feeds constant lists whose float mean is
+   exact: dyadic lattice values, or full-mantissa constants with n <= 2); otherwise (incl. the mode
+   estimators, which compute mf*c - nf*c with roundings)
        |impl - model| * min(1, D) <= 2^-40 * max|x|
    where D = 1, except for the biweight location where D = sum of the weights (the condition
    number of the quotient sum(d*w)/sum(w)). *)
@@ -173,7 +176,7 @@ Definition check_bkg (B : bkg_class) (l : list Q) (impl : list fl) : bool :=
                                else qmin2 1 (bw_den (qmedian l) (c * madQ l) l)
               | _ => 1
               end in
-  let exact := match B with BMedian => true | _ => all_equal l end in
+  let exact := match B with BMedian => true | BMode _ _ => false | BMMM => false | _ => all_equal l end in
   forallb (fun o : fl =>
     match o with
     | None => negb defined
